@@ -1397,6 +1397,27 @@ func seqBatches(seed uint64, r *hx.Rand, n int, st *hx.Stats, w func(string)) {
 	}
 }
 
+// manyVersionsSequence (seeded C13-35 class): ONE router without a valid-versions list sees 70 requests that each name
+// another unknown version (served from the default version's tree, reported as named), then the first request ever for a
+// registered version: state that accumulates over requests must not change what a later request is answered
+func manyVersionsSequence(seed uint64, st *hx.Stats, w func(string)) {
+	k := caseT{C: cfgT{Opts: []optT{{K: "H", A: "X-API-Version"}, {K: "Q", A: "v"}}, Default: "v1", Valid: []string{}, SendVH: true, Now: 1750000000, LCs: []lcT{}},
+		R: []routeT{{Versioned: true, Ver: "v1", Method: "GET", Path: "/users"}, {Versioned: true, Ver: "v2", Method: "GET", Path: "/users"}}}
+	var qs []reqT
+	for i := 0; i < 70; i++ {
+		if i%2 == 0 {
+			qs = append(qs, reqT{Method: "GET", Path: "/users", Hdr: [][2]string{{"X-API-Version", "u" + strconv.Itoa(i)}}})
+		} else {
+			qs = append(qs, reqT{Method: "GET", Path: "/users", RawQuery: "v=u" + strconv.Itoa(i), Hdr: [][2]string{}})
+		}
+	}
+	qs = append(qs, reqT{Method: "GET", Path: "/users", Hdr: [][2]string{{"X-API-Version", "v2"}}},
+		reqT{Method: "GET", Path: "/users", RawQuery: "v=v2", Hdr: [][2]string{}})
+	for _, l := range runConc(fmt.Sprintf("c13s-%d-many", seed), k, qs, 1, len(qs), -1, st) {
+		w(l)
+	}
+}
+
 // the router panics on a duplicate (tree, method, path); keep the first
 func dedupRoutes(rs []routeT) []routeT {
 	seen := map[routeT]bool{}
@@ -1514,6 +1535,7 @@ func main() {
 		}
 		concBatches(a.Seed, r, nb, st, func(l string) { fmt.Fprintln(w, l) })
 		seqBatches(a.Seed, r, 50*nb, st, func(l string) { fmt.Fprintln(w, l) })
+		manyVersionsSequence(a.Seed, st, func(l string) { fmt.Fprintln(w, l) })
 		st.Emit(w)
 	case "replay":
 		for _, line := range hx.StdinLines() {
